@@ -155,8 +155,85 @@ fn run_parse(kind: &str, chunks: &[Vec<u8>]) -> String {
     }
 }
 
+/// a reader that hands out the chunks one `read` at a time (short reads), interleaved with
+/// `Interrupted` errors, then EOF
+struct ChunkReader {
+    chunks: Vec<Vec<u8>>,
+    idx: usize,
+    off: usize,
+    tick: usize,
+}
+
+impl std::io::Read for ChunkReader {
+    fn read(&mut self, buf: &mut [u8]) -> std::io::Result<usize> {
+        self.tick += 1;
+        if self.tick % 3 == 1 {
+            return Err(std::io::Error::new(std::io::ErrorKind::Interrupted, "again"));
+        }
+        while self.idx < self.chunks.len() && self.off >= self.chunks[self.idx].len() {
+            self.idx += 1;
+            self.off = 0;
+        }
+        if self.idx >= self.chunks.len() {
+            return Ok(0);
+        }
+        let c = &self.chunks[self.idx];
+        let n = std::cmp::min(buf.len(), c.len() - self.off);
+        buf[..n].copy_from_slice(&c[self.off..self.off + n]);
+        self.off += n;
+        Ok(n)
+    }
+}
+
+/// the other front ends of `TendrilSink` / `LossyDecoder` against `String::from_utf8_lossy` of the
+/// whole input: `S=<text> <#errors> ## W=<text>`
+fn run_front(kind: &str, chunks: &[Vec<u8>]) -> String {
+    let all: Vec<u8> = chunks.concat();
+    let lossy = String::from_utf8_lossy(&all).into_owned();
+    let r: Rec = match kind {
+        "one" => Utf8LossyDecoder::new(Rec::default()).one(ByteTendril::from_slice(&all)),
+        "iter" => Utf8LossyDecoder::new(Rec::default())
+            .from_iter(chunks.iter().map(|c| ByteTendril::from_slice(c))),
+        "read" => {
+            let mut rd = ChunkReader {
+                chunks: chunks.to_vec(),
+                idx: 0,
+                off: 0,
+                tick: 0,
+            };
+            match Utf8LossyDecoder::new(Rec::default()).read_from(&mut rd) {
+                Ok(r) => r,
+                Err(e) => return format!("io-error {e}"),
+            }
+        },
+        "lossy" => {
+            let mut d: LossyDecoder<Rec> = LossyDecoder::utf8(Rec::default());
+            for c in chunks {
+                d.process(ByteTendril::from_slice(c));
+            }
+            d.finish()
+        },
+        "rsdec" => {
+            let mut d: LossyDecoder<Rec> = LossyDecoder::new_from_encoding_rs_decoder(
+                encoding_rs::UTF_8.new_decoder_without_bom_handling(),
+                Rec::default(),
+            );
+            for c in chunks {
+                d.process(ByteTendril::from_slice(c));
+            }
+            d.finish()
+        },
+        _ => return "bad-case".into(),
+    };
+    format!("S={} {} ## W={}", show_str(&r.text), r.errors, show_str(&lossy))
+}
+
 pub fn run(fields: &[&str]) -> String {
     match fields {
+        ["front", kind, chunks] => match parse_chunks(chunks) {
+            Some(c) => run_front(kind, &c),
+            None => "bad-case".into(),
+        },
         ["dec", chunks] => match parse_chunks(chunks) {
             Some(c) => run_dec(&c),
             None => "bad-case".into(),
